@@ -368,3 +368,7 @@ for n, w, t in (("c05_seq_bc_n2_streams", "broadcast N=2, two streams", "quick")
       "sequential; symbolic counts <= N, view yes/no, teardown order", rules=SEQRULES, teardown=True)
 for n in ("c05_bc_a2_d3", "c05_mp_a1_d3", "c05_bc_a5_d3", "c05_mp_a4_d3"):
     HARNESSES[n]["tier"] = "thorough"
+for n, w in (("c05_bcfut_uni_addstream", "broadcast futures"), ("c05_mpfut_uni_addstream", "mpmc futures (move-out)")):
+    H(n, FU, "C05", ["C05", "C04", "C01"], "quick",
+      w + " single-consumer receiver: into_single, add_stream_with, one send, one in-place receive on each stream, teardown; instrumented payload (double drop / use after drop asserted)",
+      "sequential", rules=FUTRULES + [(r'ReadCursor::add_stream', 3), (r'Vec.*clone|to_vec|retain|extend|spec_', 5)], teardown=True)
